@@ -166,6 +166,18 @@ func (zeroSignature) VerifyAggregate([][]byte, []e2types.PublicKey) bool        
 func (zeroSignature) VerifyAggregateCommon([]byte, []e2types.PublicKey) bool    { return false }
 func (zeroSignature) Marshal() []byte                                           { return make([]byte, 96) }
 
+// multiCall numbers the multi-signature calls made for the request of ctx.
+func multiCall(ctx context.Context) int {
+	e := stepOf(ctx)
+	if e == nil {
+		return 0
+	}
+	e.mu.Lock()
+	defer e.mu.Unlock()
+	e.multiCalls++
+	return e.multiCalls
+}
+
 func stepOf(ctx context.Context) *stepEnv {
 	e, _ := ctx.Value(stepEnvKey{}).(*stepEnv)
 	return e
@@ -185,10 +197,22 @@ func batchCallFails(ctx context.Context, key uint64) bool {
 
 // batchMisses: multi-signature calls made for this request have no signature for this member
 // (nil entry, or an all-zero signature object when zero).
-func batchMisses(ctx context.Context, key uint64) (miss bool, zero bool) {
+func batchMisses(ctx context.Context, call int, key uint64) (miss bool, zero bool) {
 	e := stepOf(ctx)
 	if e == nil {
 		return false, false
+	}
+	if e.batchOnce[key] {
+		e.mu.Lock()
+		defer e.mu.Unlock()
+		if e.onceCall == nil {
+			e.onceCall = map[uint64]int{}
+		}
+		if c, seen := e.onceCall[key]; seen {
+			return c == call, false
+		}
+		e.onceCall[key] = call
+		return true, false
 	}
 	if e.batchZero[key] {
 		return true, true
@@ -256,13 +280,14 @@ func (c capM) SignBeaconAttestations(ctx context.Context, slot uint64, accounts 
 	if batchCallFails(ctx, c.b.d.Key) {
 		return nil, errMultiCall
 	}
+	call := multiCall(ctx)
 	res := make([]e2types.Signature, len(accounts))
 	for i := range accounts {
 		b := accounts[i].(baser).theBase()
 		if b.d.Fail {
 			continue
 		}
-		if miss, zero := batchMisses(ctx, b.d.Key); miss {
+		if miss, zero := batchMisses(ctx, call, b.d.Key); miss {
 			if zero {
 				res[i] = zeroSignature{}
 			}
@@ -283,13 +308,14 @@ func (c capM) SignGenericMulti(ctx context.Context, accounts []e2wtypes.Account,
 	if batchCallFails(ctx, c.b.d.Key) {
 		return nil, errMultiCall
 	}
+	call := multiCall(ctx)
 	res := make([]e2types.Signature, len(accounts))
 	for i := range accounts {
 		b := accounts[i].(baser).theBase()
 		if b.d.Fail {
 			continue
 		}
-		if miss, zero := batchMisses(ctx, b.d.Key); miss {
+		if miss, zero := batchMisses(ctx, call, b.d.Key); miss {
 			if zero {
 				res[i] = zeroSignature{}
 			}
@@ -487,6 +513,11 @@ type stepEnv struct {
 	prov  map[string]string // signature bytes -> provenance term, for the calls made for this request
 	// transient failures of the remote signer while this request is handled (read only), by key
 	batchFail, batchZero, batchErr, singleFail map[uint64]bool
+	// batchOnce: only the FIRST multi-signature call of this request that has the member among its
+	// accounts leaves it out; a later call (a second round for the left-overs) signs for it
+	batchOnce map[uint64]bool
+	multiCalls int            // multi-signature calls made for this request so far
+	onceCall   map[uint64]int // the call that left the member out
 }
 
 func keySet(keys []uint64) map[uint64]bool {
